@@ -1,2 +1,789 @@
-// Package c04 decides C04 (see DESIGN.md section 4). Not built yet.
+// Package c04 decides C04 (every used generic instantiation exists, is distinct
+// and behaves correctly).
+//
+// spec/Instances.tla defines the space of generic program shapes, the reference
+// (least fixpoint of "the code of an instance mentions an instance", the
+// observable behaviour Exec of the rendered program) and an implementation-shaped
+// model of typeparams.Collector (Scan, Finish over a Go map, propagate with the
+// unprocessed index, addInstance with methods, the InstanceMap).  TLC checks on
+// the model that the collected set is the fixpoint for every iteration order and
+// that the instance map agrees with equality of type terms, and writes the
+// scenarios.  This package renders every scenario as a real multi-package Go
+// module, builds it with the compiler under test, runs it under Node, runs it
+// natively (guard) and compares
+//   - the printed log with Exec (zero values, arithmetic width, method results,
+//     blocking methods, type identity by ==, map key, type switch, assertion),
+//   - the compiler's real instance sets and declaration names with the fixpoint,
+//   - the real ORDER of the sets with the final orders of the model.
 package c04
+
+import (
+	"encoding/json"
+	"fmt"
+	"math/rand"
+	"os"
+	"path/filepath"
+	"sort"
+	"strings"
+	"sync"
+	"time"
+
+	"verif/core"
+	"verif/gjs"
+	"verif/reg"
+	"verif/tlcx"
+)
+
+func init() { reg.Register("C04", "model_checking", Run) }
+
+const execDepth = 2
+
+const cfgMain = "SPECIFICATION Spec\nINVARIANTS Sound Confluent Complete SeenOK Emit\nCHECK_DEADLOCK FALSE\n"
+const cfgIds = "SPECIFICATION Spec\nINVARIANTS IdsDeterministic\nCHECK_DEADLOCK FALSE\n"
+
+// Bounds is Params.bnd of Instances.tla.
+type Bounds struct {
+	MaxDecls  int      `json:"maxDecls"`
+	MaxNP     int      `json:"maxNP"`
+	MaxUses   int      `json:"maxUses"`
+	MaxRoots  int      `json:"maxRoots"`
+	TexDepth  int      `json:"texDepth"`
+	RootDepth int      `json:"rootDepth"`
+	Canon     bool     `json:"canon"`
+	Kinds     []string `json:"kinds"`
+	Pkgs      []string `json:"pkgs"`
+	RootPkgs  []string `json:"rootPkgs"`
+	Cons      []string `json:"cons"`
+	Tags      []string `json:"tags"`
+	Grounds   []string `json:"grounds"`
+	Styles    []string `json:"styles"`
+	Sites     []string `json:"sites"`
+}
+
+type tlaParams struct {
+	Codes     [][]int   `json:"codes"`
+	Given     []Program `json:"given"`
+	Sorted    bool      `json:"sorted"`
+	ExecDepth int       `json:"execDepth"`
+	Out       string    `json:"out"`
+	Bnd       Bounds    `json:"bnd"`
+}
+
+// FullBounds is the family the property statement quantifies over (sampled by
+// seeded digit strings): <= 3 declarations, <= 2 type parameters, <= 2 uses per
+// body, packages a b c (+ main), type expressions nested <= 2.
+func FullBounds(localArgs bool) Bounds {
+	b := Bounds{MaxDecls: 3, MaxNP: 2, MaxUses: 2, MaxRoots: 3, TexDepth: 2, RootDepth: 1,
+		Kinds: []string{"func", "type", "nested"}, Pkgs: []string{"a", "b", "c"}, RootPkgs: []string{"m", "a", "b", "c"},
+		Cons: []string{"any", "num"}, Tags: []string{"p", "g", "s", "q", "i"}, Grounds: []string{"I8", "U8", "I16"},
+		Styles: []string{"x", "i"}, Sites: []string{"body", "field"}}
+	if localArgs {
+		b.Tags = append(b.Tags, "l")
+	}
+	return b
+}
+
+// ExhBounds is the family TLC enumerates completely.
+func ExhBounds(thorough bool) Bounds {
+	if thorough {
+		return Bounds{MaxDecls: 3, MaxNP: 1, MaxUses: 1, MaxRoots: 2, TexDepth: 0, RootDepth: 0, Canon: true,
+			Kinds: []string{"func", "type"}, Pkgs: []string{"a", "b", "c"}, RootPkgs: []string{"m"},
+			Cons: []string{"any"}, Tags: []string{"p", "g"}, Grounds: []string{"I8", "U8"},
+			Styles: []string{"i"}, Sites: []string{"body", "field"}}
+	}
+	return Bounds{MaxDecls: 2, MaxNP: 1, MaxUses: 1, MaxRoots: 2, TexDepth: 1, RootDepth: 0, Canon: true,
+		Kinds: []string{"func", "type"}, Pkgs: []string{"a", "c"}, RootPkgs: []string{"m"},
+		Cons: []string{"any"}, Tags: []string{"p", "g", "s"}, Grounds: []string{"I8", "U8"},
+		Styles: []string{"i"}, Sites: []string{"body", "field"}}
+}
+
+func decodeLine(raw json.RawMessage, into any) error {
+	if len(raw) > 0 && raw[0] == '"' {
+		var inner string
+		if err := json.Unmarshal(raw, &inner); err != nil {
+			return err
+		}
+		return json.Unmarshal([]byte(inner), into)
+	}
+	return json.Unmarshal(raw, into)
+}
+
+type orderLine struct {
+	Cid    int     `json:"cid"`
+	Decls  []Decl  `json:"decls"`
+	Roots  []Root  `json:"roots"`
+	Rounds int     `json:"rounds"`
+	Order  [][]int `json:"order"`
+}
+
+// RunModel runs Instances.tla and returns the emitted programs (keyed modes)
+// or, in exhaustive mode, the final orders grouped by program.
+type ModelOut struct {
+	Res    *tlcx.Result
+	Progs  []*ProgRec              // keyed modes
+	Orders map[string]*ExhProgram  // exhaustive mode: program key -> orders
+}
+
+// ExhProgram is one program of the exhaustive family with the model's final orders.
+type ExhProgram struct {
+	Prog   Program
+	Orders map[string]bool
+	Rounds int
+}
+
+func RunModel(c *core.Ctx, p tlaParams, cfg string, workers int, timeout time.Duration) (*ModelOut, error) {
+	p.Out = "scen"
+	p.ExecDepth = execDepth
+	if p.Codes == nil {
+		p.Codes = [][]int{}
+	}
+	if p.Given == nil {
+		p.Given = []Program{}
+	}
+	pj, _ := json.Marshal(p)
+	r, err := tlcx.Run(c, tlcx.Opts{Module: "Instances", Cfg: cfg, Workers: workers, Timeout: timeout,
+		Files: map[string]string{"c04_params.json": string(pj)}, HeapMB: 6144})
+	if err != nil {
+		return nil, err
+	}
+	out := &ModelOut{Res: r, Orders: map[string]*ExhProgram{}}
+	keyed := len(p.Codes) > 0 || len(p.Given) > 0
+	byCid := map[int]*ProgRec{}
+	if keyed {
+		files, _ := filepath.Glob(filepath.Join(r.Dir, "scen.prog.*.ndjson"))
+		sort.Strings(files)
+		for _, f := range files {
+			err := tlcx.ReadNDJSON(f, func(raw json.RawMessage) error {
+				rec := &ProgRec{}
+				if err := decodeLine(raw, rec); err != nil {
+					return err
+				}
+				byCid[rec.Cid] = rec
+				return nil
+			})
+			if err != nil {
+				return out, fmt.Errorf("decode %s: %v", f, err)
+			}
+		}
+	}
+	of := filepath.Join(r.Dir, "scen.order.ndjson")
+	if _, e := os.Stat(of); e == nil {
+		err := tlcx.ReadNDJSON(of, func(raw json.RawMessage) error {
+			var ol orderLine
+			if err := decodeLine(raw, &ol); err != nil {
+				return err
+			}
+			if keyed {
+				rec := byCid[ol.Cid]
+				if rec == nil {
+					return fmt.Errorf("order line for unknown program %d", ol.Cid)
+				}
+				rec.Orders = append(rec.Orders, ol.Order)
+				return nil
+			}
+			pr := Program{Decls: ol.Decls, Roots: ol.Roots}
+			k := pr.Key()
+			ep := out.Orders[k]
+			if ep == nil {
+				ep = &ExhProgram{Prog: pr, Orders: map[string]bool{}}
+				out.Orders[k] = ep
+			}
+			ob, _ := json.Marshal(ol.Order)
+			ep.Orders[string(ob)] = true
+			if ol.Rounds > ep.Rounds {
+				ep.Rounds = ol.Rounds
+			}
+			return nil
+		})
+		if err != nil {
+			return out, fmt.Errorf("decode %s: %v", of, err)
+		}
+	}
+	cids := make([]int, 0, len(byCid))
+	for k := range byCid {
+		cids = append(cids, k)
+	}
+	sort.Ints(cids)
+	for _, k := range cids {
+		out.Progs = append(out.Progs, byCid[k])
+	}
+	return out, nil
+}
+
+func seededCodes(rng *rand.Rand, n int) [][]int {
+	codes := make([][]int, n)
+	for i := range codes {
+		codes[i] = make([]int, 48)
+		for j := range codes[i] {
+			codes[i][j] = rng.Intn(100000)
+		}
+	}
+	return codes
+}
+
+// distinctOrders of a keyed program.
+func distinctOrders(rec *ProgRec) int {
+	m := map[string]bool{}
+	for _, o := range rec.Orders {
+		b, _ := json.Marshal(o)
+		m[string(b)] = true
+	}
+	return len(m)
+}
+
+// Witnesses selects the smallest order-sensitive programs of an exhaustive run,
+// at most one per coarse shape first.
+func Witnesses(orders map[string]*ExhProgram, n int) []Program {
+	type cand struct {
+		p    Program
+		size int
+		key  string
+	}
+	var cs []cand
+	for k, ep := range orders {
+		if len(ep.Orders) < 2 {
+			continue
+		}
+		uses := 0
+		for _, d := range ep.Prog.Decls {
+			uses += len(d.Uses)
+		}
+		cs = append(cs, cand{ep.Prog, len(ep.Prog.Decls)*100 + uses*10 + len(ep.Prog.Roots), k})
+	}
+	sort.Slice(cs, func(i, j int) bool {
+		if cs[i].size != cs[j].size {
+			return cs[i].size < cs[j].size
+		}
+		return cs[i].key < cs[j].key
+	})
+	var out []Program
+	seen := map[string]bool{}
+	for pass := 0; pass < 2 && len(out) < n; pass++ {
+		for _, x := range cs {
+			if len(out) >= n {
+				break
+			}
+			sh := x.p.shape()
+			if pass == 0 && seen[sh] {
+				continue
+			}
+			if pass == 1 && seen[x.key] {
+				continue
+			}
+			seen[sh] = true
+			seen[x.key] = true
+			out = append(out, x.p)
+		}
+	}
+	return out
+}
+
+// F6Witness is the shape of DESIGN.md section 6 F6: generic functions of the packages a
+// and b each instantiate the generic function of package c with a different argument.
+func F6Witness() Program {
+	tp := &Term{Tag: "p", N: 1, Subs: []*Term{}}
+	g := func(n string) *Term { return &Term{Tag: "g", Name: n, Subs: []*Term{}} }
+	any1 := []string{"any"}
+	return Program{
+		Decls: []Decl{
+			{Kind: "func", Pkg: "a", NP: 1, Cons: any1, Uses: []Use{{Tgt: 3, Args: []*Term{tp}, Site: "body", Style: "i"}}},
+			{Kind: "func", Pkg: "b", NP: 1, Cons: any1, Uses: []Use{{Tgt: 3, Args: []*Term{tp}, Site: "body", Style: "i"}}},
+			{Kind: "func", Pkg: "c", NP: 1, Cons: any1, Uses: []Use{}},
+		},
+		Roots: []Root{
+			{Pkg: "m", Tgt: 1, Args: []*Term{g("I8")}, Style: "i"},
+			{Pkg: "m", Tgt: 2, Args: []*Term{g("U8")}, Style: "i"},
+		},
+	}
+}
+
+type checker struct {
+	c    *core.Ctx
+	pool *gjs.Pool
+	mu   sync.Mutex
+	// counters
+	lines, insts, ordersOK, ordersDrift, supersets, realVaries int
+	driftSamples                                             []string
+}
+
+func normLines(ls []string) []string {
+	out := make([]string, len(ls))
+	for i, l := range ls {
+		if l == "-0" {
+			l = "0"
+		}
+		out[i] = strings.ReplaceAll(l, " -0", " 0")
+	}
+	return out
+}
+
+func sameLines(a, b []string) bool {
+	if len(a) != len(b) {
+		return false
+	}
+	for i := range a {
+		if a[i] != b[i] {
+			return false
+		}
+	}
+	return true
+}
+
+func firstDiff(got, want []string) string {
+	for i := 0; i < len(got) || i < len(want); i++ {
+		g, w := "<none>", "<none>"
+		if i < len(got) {
+			g = got[i]
+		}
+		if i < len(want) {
+			w = want[i]
+		}
+		if g != w {
+			return fmt.Sprintf("line %d: predicted %q, observed %q", i+1, w, g)
+		}
+	}
+	return "same lines"
+}
+
+func (ck *checker) report(rec *ProgRec, prog gjs.Prog, want []string, keys []string, summary string, extra map[string]string) {
+	files := prog.ReplayFiles("prog")
+	if _, setsCase := extra["real_instance_sets.json"]; !setsCase {
+		// (cases about the instance sets are replayed by this package: no predicted.txt)
+		files["predicted.txt"] = strings.Join(want, "\n") + "\nend=exit\n"
+	}
+	pj, _ := json.MarshalIndent(rec.Program(), "", " ")
+	files["scenario.json"] = string(pj) + "\n"
+	for k, v := range extra {
+		files[k] = v
+	}
+	ck.c.Report(core.Case{Keys: keys, Summary: summary, Files: files})
+}
+
+// shapeKeys are the classifier keys a failing program of this shape may carry.
+func shapeKeys(p Program, msg string) []string {
+	var keys []string
+	if p.explicitCrossPkgInGeneric() && strings.Contains(msg, "Substituting types.Signatures with generic functions") {
+		keys = append(keys, "qualified_generic_func_explicit_inst_in_generic_code")
+	}
+	if p.localTypeAsArg() {
+		keys = append(keys, "local_type_of_generic_func_as_type_argument")
+	}
+	return keys
+}
+
+// check renders one scenario, runs it and compares. nbuilds > 1: that many fresh
+// compiler processes, each validated against the model's final orders.
+func (ck *checker) check(rec *ProgRec, nbuilds int) {
+	c := ck.c
+	p := rec.Program()
+	inferAll := false
+	prog, want := Render(rec, execDepth, inferAll)
+	b := ck.pool.RunBoth(c.Scratch, prog, gjs.Opts{}, 2*time.Minute, true, true)
+	if b.Dir != "" {
+		defer os.RemoveAll(b.Dir)
+	}
+	// guard: the reference toolchain must accept the program and print what the
+	// specification predicts
+	if b.NativeErr != "" {
+		c.Add("spec_guard_discards", 1)
+		c.Sample(map[string]any{"discarded": p.Key(), "native_error": tailStr(b.NativeErr, 400)})
+		return
+	}
+	if b.Native.End != "exit" || !sameLines(normLines(b.Native.Lines), want) {
+		c.Add("spec_guard_discards", 1)
+		c.Sample(map[string]any{"discarded": p.Key(), "native": firstDiff(normLines(b.Native.Lines), want), "end": b.Native.End})
+		return
+	}
+	if b.BuildErr != nil {
+		be, ok := b.BuildErr.(*gjs.BuildError)
+		if !ok {
+			c.Infra(fmt.Errorf("gopherjs build: %v", b.BuildErr))
+			return
+		}
+		keys := shapeKeys(p, be.Error())
+		kind := "rejects"
+		if be.Panic || strings.Contains(be.Error(), "compiler panic") {
+			kind = "crashes on"
+		}
+		ck.report(rec, prog, want, append(keys, "compiler_fails_on_legal_generic_program"),
+			fmt.Sprintf("the compiler %s a legal program (go builds and runs it as predicted): %s", kind, firstLineOf(be.Error())), nil)
+		if len(keys) > 0 && keys[0] == "qualified_generic_func_explicit_inst_in_generic_code" && !p.localTypeAsArg() {
+			// the same program with these instantiations written by inference exercises the rest
+			inferAll = true
+			prog, want = Render(rec, execDepth, true)
+			os.RemoveAll(b.Dir)
+			b = ck.pool.RunBoth(c.Scratch, prog, gjs.Opts{}, 2*time.Minute, false, true)
+			if b.Dir != "" {
+				defer os.RemoveAll(b.Dir)
+			}
+			if b.BuildErr != nil {
+				if be2, ok := b.BuildErr.(*gjs.BuildError); ok {
+					ck.report(rec, prog, want, []string{"compiler_fails_on_legal_generic_program"},
+						fmt.Sprintf("the compiler fails on a legal program (instantiations by inference): %s", firstLineOf(be2.Error())), nil)
+				} else {
+					c.Infra(fmt.Errorf("gopherjs build: %v", b.BuildErr))
+				}
+				return
+			}
+		} else {
+			return
+		}
+	}
+	c.Add("evaluations", 1)
+	c.Distinct(p.Key())
+	got := normLines(b.JS.Lines)
+	ck.mu.Lock()
+	ck.lines += len(want)
+	ck.mu.Unlock()
+	if b.JS.End != "exit" || !sameLines(got, want) {
+		keys := shapeKeys(p, "")
+		ck.report(rec, prog, want, append(keys, "behaviour_differs"),
+			fmt.Sprintf("compiled program differs from the specification and from go: %s (end=%s %s)", firstDiff(got, want), b.JS.End, b.JS.Msg),
+			map[string]string{"observed.txt": strings.Join(got, "\n") + "\nend=" + b.JS.End + "\n"})
+	}
+	// the real instance sets, read in fresh compiler processes
+	varies := map[string]bool{}
+	for n := 0; n < nbuilds; n++ {
+		res, err := RunChild(ChildJob{Dir: b.Dir, Dump: true}, 3*time.Minute)
+		if err != nil {
+			c.Infra(err)
+			return
+		}
+		if res.Err != "" {
+			ck.report(rec, prog, want, []string{"compiler_fails_on_legal_generic_program"}, "the compiler failed in a fresh process on a program it had compiled: "+firstLineOf(res.Err), nil)
+			return
+		}
+		ob, _ := json.Marshal(res.Sets)
+		first := !varies[string(ob)]
+		varies[string(ob)] = true
+		if !first {
+			continue
+		}
+		ck.compareSets(rec, prog, want, res, n == 0)
+	}
+	if len(varies) > 1 {
+		ck.mu.Lock()
+		ck.realVaries++
+		ck.mu.Unlock()
+	}
+}
+
+func firstLineOf(s string) string {
+	s = strings.TrimSpace(s)
+	if i := strings.Index(s, "\n\nOriginal stack"); i >= 0 {
+		s = s[:i]
+	}
+	if i := strings.Index(s, "\nDetailed AST"); i >= 0 {
+		s = s[:i]
+	}
+	s = strings.ReplaceAll(s, "\n", " ")
+	if len(s) > 400 {
+		s = s[:400]
+	}
+	return s
+}
+
+func (ck *checker) compareSets(rec *ProgRec, prog gjs.Prog, want []string, res *ChildResult, countInsts bool) {
+	ds := rec.Decls
+	p := rec.Program()
+	// predicted per package
+	pred := map[string]map[string]int{}   // path -> instance string -> multiplicity (ImplFix)
+	needed := map[string]map[string]int{} // RefFix only
+	for i, in := range rec.Fix {
+		path := pkgPath(ds[in.D-1].Pkg)
+		if pred[path] == nil {
+			pred[path] = map[string]int{}
+			needed[path] = map[string]int{}
+		}
+		s := instString(ds, in)
+		pred[path][s]++
+		if rec.Ref[i] {
+			needed[path][s]++
+		}
+	}
+	var missing, extra, undeclared []string
+	for path, m := range pred {
+		real := map[string]int{}
+		for _, s := range res.Sets[path] {
+			real[s]++
+		}
+		for s, n := range needed[path] {
+			if real[s] < n {
+				missing = append(missing, s)
+			}
+		}
+		for s, n := range m {
+			if real[s] < n && needed[path][s] == 0 {
+				extra = append(extra, "model-only:"+s)
+			}
+		}
+		for s, n := range real {
+			if m[s] < n {
+				extra = append(extra, "real-only:"+s)
+			}
+		}
+	}
+	for path, l := range res.Sets {
+		if pred[path] == nil && len(l) > 0 && path != "vp/t" {
+			for _, s := range l {
+				extra = append(extra, "real-only:"+s)
+			}
+		}
+	}
+	// every needed instance must have been translated
+	for i, in := range rec.Fix {
+		if !rec.Ref[i] {
+			continue
+		}
+		path := pkgPath(ds[in.D-1].Pkg)
+		fn := declFullName(ds, in)
+		found := false
+		for _, d := range res.Decls[path] {
+			if d == fn {
+				found = true
+				break
+			}
+		}
+		if !found {
+			undeclared = append(undeclared, fn)
+		}
+	}
+	if countInsts {
+		ck.mu.Lock()
+		ck.insts += len(rec.Fix)
+		ck.mu.Unlock()
+	}
+	sort.Strings(missing)
+	sort.Strings(undeclared)
+	sort.Strings(extra)
+	if len(missing) > 0 || len(undeclared) > 0 {
+		sj, _ := json.MarshalIndent(res.Sets, "", " ")
+		ck.report(rec, prog, want, append(shapeKeys(p, ""), "instance_missing"),
+			fmt.Sprintf("instances the program needs are not in the compiler's instance sets / archives: missing %v, not translated %v", missing, undeclared),
+			map[string]string{"real_instance_sets.json": string(sj) + "\n"})
+		return
+	}
+	if len(extra) > 0 {
+		// a superset is harmless for the property; it means the implementation-shaped
+		// model and the code drifted apart
+		ck.mu.Lock()
+		ck.supersets++
+		if len(ck.driftSamples) < 3 {
+			ck.driftSamples = append(ck.driftSamples, fmt.Sprintf("%v in %s", extra, p.Key()))
+		}
+		ck.mu.Unlock()
+		return
+	}
+	// order: the real sets must be one of the model's final orders
+	realOrd := map[string][]string{}
+	for path, l := range res.Sets {
+		if len(l) > 0 {
+			realOrd[path] = l
+		}
+	}
+	rb, _ := json.Marshal(realOrd)
+	ok := false
+	for _, o := range rec.Orders {
+		mo := map[string][]string{}
+		for q, idxs := range o {
+			if len(idxs) == 0 {
+				continue
+			}
+			var l []string
+			for _, ix := range idxs {
+				l = append(l, instString(ds, rec.Fix[ix-1]))
+			}
+			mo[pkgPath(pkgSeq[q])] = l
+		}
+		mb, _ := json.Marshal(mo)
+		if string(mb) == string(rb) {
+			ok = true
+			break
+		}
+	}
+	ck.mu.Lock()
+	if ok {
+		ck.ordersOK++
+	} else {
+		ck.ordersDrift++
+		if len(ck.driftSamples) < 3 {
+			ck.driftSamples = append(ck.driftSamples, fmt.Sprintf("order %s is none of the %d model orders of %s", rb, len(rec.Orders), p.Key()))
+		}
+	}
+	ck.mu.Unlock()
+}
+
+// Run is the C04 check.
+func Run(c *core.Ctx, pool *gjs.Pool) {
+	if rd := os.Getenv("VERIF_REPLAY"); rd != "" {
+		replay(c, pool, rd)
+		return
+	}
+	c.Assumef("programs are rendered from the shapes of Instances.tla: struct types with one pointer-receiver method, functions, struct types local to generic functions; constraints any and Num; ground types are named int8/uint8/int16")
+	c.Assumef("behaviour is observed through a log printed at the end (println of 32-bit integers and ASCII); type identity through interface ==, map keys, a type switch on the non-generic types and a type assertion T1 -> T2 inside generic code")
+	c.Assumef("legality of a shape (no expanding instantiation cycle) is decided by Instances!Legal and confirmed by the reference toolchain; shapes it rejects are discarded and counted")
+	rng := rand.New(rand.NewSource(c.Seed))
+	workers := 6
+
+	// 1. exhaustive family: all invariants, all iteration orders
+	exh, err := RunModel(c, tlaParams{Bnd: ExhBounds(c.Thorough())}, cfgMain, workers, time.Duration(c.Pick(12, 40))*time.Minute)
+	if err != nil || exh.Res == nil {
+		c.Infra(fmt.Errorf("Instances (exhaustive): %v", err))
+		return
+	}
+	if !tlcx.MustComplete(c, exh.Res, nil, "Instances (exhaustive family)") {
+		return
+	}
+	c.Phase("tlc_exhaustive")
+	sens := 0
+	for _, ep := range exh.Orders {
+		if len(ep.Orders) > 1 {
+			sens++
+		}
+	}
+	c.Set("exhaustive_family_programs", len(exh.Orders))
+	c.Set("exhaustive_family_order_sensitive", sens)
+	eb, _ := json.Marshal(ExhBounds(c.Thorough()))
+	c.Set("exhaustive_family", json.RawMessage(eb))
+
+	// 2. seeded programs over the full bounds (with and without local types as arguments)
+	nA, nB := c.Pick(110, 1500), c.Pick(20, 200)
+	if v := os.Getenv("C04_N"); v != "" { // development aid
+		fmt.Sscanf(v, "%d,%d", &nA, &nB)
+	}
+	var recs []*ProgRec
+	for bi, n := range []int{nA, nB} {
+		m, err := RunModel(c, tlaParams{Codes: seededCodes(rng, n), Bnd: FullBounds(bi == 1)}, cfgMain, workers, time.Duration(c.Pick(10, 30))*time.Minute)
+		if err != nil || m.Res == nil {
+			c.Infra(fmt.Errorf("Instances (scripted): %v", err))
+			return
+		}
+		if !tlcx.MustComplete(c, m.Res, nil, "Instances (seeded programs)") {
+			return
+		}
+		for _, r := range m.Progs {
+			r.Origin = "scripted"
+		}
+		recs = append(recs, m.Progs...)
+	}
+	c.Phase("tlc_scripted")
+
+	// 3. witnesses of order sensitivity found in the exhaustive family (and the F6 shape)
+	wit := append([]Program{F6Witness()}, Witnesses(exh.Orders, c.Pick(5, 20))...)
+	wm, err := RunModel(c, tlaParams{Given: wit, Bnd: FullBounds(false)}, cfgMain, workers, 10*time.Minute)
+	if err != nil || wm.Res == nil {
+		c.Infra(fmt.Errorf("Instances (witnesses): %v", err))
+		return
+	}
+	if !tlcx.MustComplete(c, wm.Res, nil, "Instances (witness programs)") {
+		return
+	}
+	for _, r := range wm.Progs {
+		r.Origin = "witness"
+	}
+	// at the level of the model: ids are NOT a function of the program for the unsorted range
+	// (F6), and they are for the sorted one
+	ids1, err := RunModel(c, tlaParams{Given: wit, Bnd: FullBounds(false)}, cfgIds, 2, 10*time.Minute)
+	if err != nil || ids1.Res == nil {
+		c.Infra(fmt.Errorf("Instances (IdsDeterministic): %v", err))
+		return
+	}
+	ids2, err := RunModel(c, tlaParams{Given: wit, Bnd: FullBounds(false), Sorted: true}, cfgIds, 2, 10*time.Minute)
+	if err != nil || ids2.Res == nil {
+		c.Infra(fmt.Errorf("Instances (IdsDeterministic, sorted): %v", err))
+		return
+	}
+	c.Set("model_ids_depend_on_map_order", ids1.Res.Violated == "IdsDeterministic")
+	c.Set("model_ids_deterministic_with_sorted_range", ids2.Res.Completed)
+	if ids1.Res.Violated != "IdsDeterministic" && !ids1.Res.Completed {
+		c.Infra(fmt.Errorf("Instances (IdsDeterministic): unexpected TLC outcome %q\n%s", ids1.Res.Violated, tlcx.Tail(ids1.Res.Output, 30)))
+		return
+	}
+	if !ids2.Res.Completed {
+		c.Infra(fmt.Errorf("Instances (IdsDeterministic, sorted range): TLC did not complete (%q)\n%s", ids2.Res.Violated, tlcx.Tail(ids2.Res.Output, 30)))
+		return
+	}
+	c.Phase("tlc_witness")
+	c.Set("checker_cmd", "tlc Instances (INVARIANTS Sound Confluent Complete SeenOK Emit) on the exhaustive family, the seeded programs and the witnesses; tlc Instances (INVARIANT IdsDeterministic) on the witnesses with the unsorted (expected: violated, F6) and the sorted range (expected: holds)")
+	c.Set("exhaustive", true)
+
+	// 4. bind to the real compiler
+	ck := &checker{c: c, pool: pool}
+	skipped := nA + nB - len(recs)
+	c.Set("seeded_codes", nA+nB)
+	c.Set("seeded_codes_dropped_by_model", skipped)
+	all := append(append([]*ProgRec{}, wm.Progs...), recs...)
+	// drop duplicates
+	seen := map[string]bool{}
+	var uniq []*ProgRec
+	for _, r := range all {
+		k := r.Program().Key()
+		if !seen[k] {
+			seen[k] = true
+			uniq = append(uniq, r)
+		}
+	}
+	c.Set("programs", len(uniq))
+	msens := 0
+	shapes := map[string]int{}
+	for _, r := range uniq {
+		if distinctOrders(r) > 1 {
+			msens++
+		}
+		shapes[r.Program().shape()]++
+	}
+	c.Set("programs_order_sensitive_in_model", msens)
+	c.Set("program_shapes", len(shapes))
+	c.ParMap(len(uniq), func(i int) {
+		n := 1
+		if uniq[i].Origin == "witness" {
+			n = c.Pick(6, 12)
+		}
+		ck.check(uniq[i], n)
+	})
+	c.Phase("bind")
+	c.Set("lines_compared", ck.lines)
+	c.Set("instances_compared", ck.insts)
+	c.Set("traces_validated_against_impl", ck.ordersOK)
+	c.Set("model_drift_orders", ck.ordersDrift)
+	c.Set("model_drift_sets", ck.supersets)
+	c.Set("witness_programs_whose_real_order_varied", ck.realVaries)
+	if c.Get("spec_guard_discards") == 0 {
+		c.Set("spec_guard_discards", 0)
+	}
+	if ck.ordersDrift+ck.supersets > 0 {
+		fmt.Printf("MODEL-DRIFT: %d programs whose real instance order is none of the model's final orders, %d whose real set differs from the model's fixpoint without missing a needed instance; e.g. %v\n", ck.ordersDrift, ck.supersets, ck.driftSamples)
+	}
+	c.Set("rule", "TLC builds programs of Instances.tla choice by choice: every program of the exhaustive family (coverage.exhaustive_family) with every iteration order of Collector.Finish is model-checked; programs over the full bounds (<=3 declarations, <=2 type parameters, <=2 uses per body, packages a b c + main, type expressions nested <=2) are selected by VERIF_SEED digit strings, model-checked with every iteration order, rendered as Go modules and run; distinct = distinct programs that were compiled, run and compared (each contains at least one generic instantiation reached through generic code or a root, so every one is non-trivial); exhaustive refers to the exhaustive family and to the iteration orders of every program")
+	for i, r := range uniq {
+		if i%(len(uniq)/4+1) == 0 {
+			c.Sample(map[string]any{"program": r.Program(), "instances": len(r.Fix), "log_events": len(r.Log), "model_orders": distinctOrders(r), "origin": r.Origin})
+		}
+	}
+}
+
+// replay re-decides one recorded scenario (scenario.json) through the model and the compiler.
+func replay(c *core.Ctx, pool *gjs.Pool, dir string) {
+	b, err := os.ReadFile(filepath.Join(dir, "scenario.json"))
+	if err != nil {
+		c.Infra(err)
+		return
+	}
+	var p Program
+	if err := json.Unmarshal(b, &p); err != nil {
+		c.Infra(err)
+		return
+	}
+	m, err := RunModel(c, tlaParams{Given: []Program{p}, Bnd: FullBounds(true)}, cfgMain, 2, 10*time.Minute)
+	if err != nil || m.Res == nil || !tlcx.MustComplete(c, m.Res, nil, "Instances (replay)") {
+		if err != nil {
+			c.Infra(err)
+		}
+		return
+	}
+	ck := &checker{c: c, pool: pool}
+	for _, r := range m.Progs {
+		ck.check(r, 3)
+	}
+	c.Set("rule", "replay of one recorded scenario")
+}
